@@ -450,4 +450,124 @@ theorem pInputVal_toks (v : InputVal) (f : Nat) (rest : List Tok) (hwf : v.wf = 
   rw [e]
   simp only [pInputVal, hdesc, hty, hdef, hd]
 
+def inputValsSize : List InputVal → Nat
+  | [] => 1
+  | v :: vs => v.size + inputValsSize vs + 1
+
+def inputValsWf (vs : List InputVal) : Bool := vs.all InputVal.wf
+
+theorem InputVal.toks_head (v : InputVal) : ∃ t r, v.toks = t :: r ∧ ∀ p, t ≠ .punct p := by
+  cases hd : v.desc with
+  | none =>
+    have : v.toks = .name v.name :: .punct .colon :: (v.ty.toks ++ defaultToks v.default ++ dirsToks v.dirs) := by
+      simp [InputVal.toks, hd, descToks]
+    exact ⟨_, _, this, by simp⟩
+  | some d =>
+    have : v.toks = .str (escapeStr d) :: .name v.name :: .punct .colon ::
+        (v.ty.toks ++ defaultToks v.default ++ dirsToks v.dirs) := by
+      simp [InputVal.toks, hd, descToks]
+    exact ⟨_, _, this, by simp⟩
+
+theorem followOk_inputVals (vs : List InputVal) (close : Punct) (rest : List Tok)
+    (hclose : [Punct.bang, .eq, .at, .lparen].contains close = false) :
+    followOk (inputValsToks vs ++ .punct close :: rest) = true := by
+  cases vs with
+  | nil => cases close <;> simp_all [inputValsToks, followOk, noHead]
+  | cons v vs' =>
+    obtain ⟨t, r, ht, hne⟩ := InputVal.toks_head v
+    simp only [inputValsToks, ht, List.cons_append, followOk]
+    cases t with
+    | punct p => exact absurd rfl (hne p)
+    | _ => rfl
+
+theorem pInputVals_toks (close : Punct) (hclose : [Punct.bang, .eq, .at, .lparen].contains close = false) :
+    ∀ (vs : List InputVal) (f : Nat) (rest : List Tok), inputValsWf vs = true → inputValsSize vs ≤ f →
+    pInputVals Quirks.spec close f (inputValsToks vs ++ .punct close :: rest) = some (vs, rest)
+  | [], f, rest, _, hf => by
+    cases f with
+    | zero => simp [inputValsSize] at hf
+    | succ f => simp [inputValsToks, pInputVals]
+  | v :: vs, f, rest, hwf, hf => by
+    cases f with
+    | zero => simp [inputValsSize] at hf
+    | succ f =>
+      have hw : v.wf = true ∧ inputValsWf vs = true := by simpa [inputValsWf] using hwf
+      have h1 := pInputVal_toks v f (inputValsToks vs ++ .punct close :: rest) hw.1
+        (by simp [inputValsSize] at hf; omega) (followOk_inputVals vs close rest hclose)
+      have h2 := pInputVals_toks close hclose vs f rest hw.2 (by simp [inputValsSize] at hf; omega)
+      obtain ⟨t, r, ht, hne⟩ := InputVal.toks_head v
+      have e : inputValsToks (v :: vs) ++ .punct close :: rest = v.toks ++ (inputValsToks vs ++ .punct close :: rest) := by
+        simp [inputValsToks]
+      rw [e]
+      have : pInputVals Quirks.spec close (f + 1) (v.toks ++ (inputValsToks vs ++ .punct close :: rest)) =
+          match pInputVal Quirks.spec f (v.toks ++ (inputValsToks vs ++ .punct close :: rest)) with
+          | some (v, r1) =>
+            match pInputVals Quirks.spec close f r1 with
+            | some (vs, r2) => some (v :: vs, r2)
+            | none => none
+          | none => none := by
+        rw [ht]
+        simp only [List.cons_append]
+        cases t with
+        | punct p => exact absurd rfl (hne p)
+        | _ => rfl
+      rw [this, h1]
+      simp [h2]
+
+theorem pInputValsOpt_toks (vs : List InputVal) (f : Nat) (rest : List Tok) (hwf : inputValsWf vs = true)
+    (hf : inputValsSize vs ≤ f) (hrest : noHead [.lparen] rest = true) :
+    pInputValsOpt Quirks.spec .lparen .rparen f (inputArgsToks vs ++ rest) = some (vs, rest) := by
+  cases vs with
+  | nil =>
+    simp only [inputArgsToks, List.nil_append]
+    unfold pInputValsOpt
+    split
+    · rename_i p r
+      split
+      · rename_i hp
+        have : p = .lparen := by simpa using hp
+        subst this
+        simp [noHead] at hrest
+      · rfl
+    · rfl
+  | cons v vs' =>
+    have h := pInputVals_toks .rparen (by decide) (v :: vs') f rest hwf hf
+    have e : inputArgsToks (v :: vs') ++ rest =
+        .punct .lparen :: (inputValsToks (v :: vs') ++ .punct .rparen :: rest) := by simp [inputArgsToks]
+    rw [e]
+    simp [pInputValsOpt, h]
+
+def FieldDef.wf (fd : FieldDef) : Bool :=
+  fd.hack.isNone && inputValsWf fd.args && fd.ty.wf && dirsWf true fd.dirs
+
+def FieldDef.size (fd : FieldDef) : Nat := inputValsSize fd.args + fd.ty.depth + dirsSize fd.dirs
+
+/-- `pFieldDef` reads back a printed field definition -/
+theorem pFieldDef_toks (fd : FieldDef) (f : Nat) (rest : List Tok) (hwf : fd.wf = true) (hf : fd.size ≤ f)
+    (hrest : noHead [.bang, .at, .lparen] rest = true) :
+    pFieldDef Quirks.spec f (fd.toks ++ rest) = some (fd, rest) := by
+  have hw : ((fd.hack = none ∧ inputValsWf fd.args = true) ∧ fd.ty.wf = true) ∧ dirsWf true fd.dirs = true := by
+    simpa [FieldDef.wf] using hwf
+  have hd := pDirs_toks true fd.dirs f rest hw.2 (by simp [FieldDef.size] at hf; omega)
+    (noHead_mono _ _ _ hrest (by intro p; cases p <;> simp))
+  have hty_rest : noBang (dirsToks fd.dirs ++ rest) = true := by
+    cases hds : fd.dirs with
+    | nil => simpa [dirsToks] using noBang_of_noHead _ _ hrest (by decide)
+    | cons d ds => simp [dirsToks, Dir.toks, noBang]
+  have hty := pType_roundtrip fd.ty f _ hw.1.2 (by simp [FieldDef.size] at hf; omega) hty_rest
+  have hargs := pInputValsOpt_toks fd.args f (.punct .colon :: (fd.ty.toks ++ (dirsToks fd.dirs ++ rest)))
+    hw.1.1.2 (by simp [FieldDef.size] at hf; omega) rfl
+  have hdesc := pDesc_descToks fd.desc
+    (.name fd.name :: (inputArgsToks fd.args ++ .punct .colon :: (fd.ty.toks ++ (dirsToks fd.dirs ++ rest))))
+    (by intro raw r; simp)
+  have e : fd.toks ++ rest = descToks fd.desc ++ (.name fd.name :: (inputArgsToks fd.args ++
+      .punct .colon :: (fd.ty.toks ++ (dirsToks fd.dirs ++ rest)))) := by
+    simp [FieldDef.toks]
+  rw [e]
+  have hq : Quirks.spec.hackSource = false := rfl
+  simp only [pFieldDef, hdesc, hq, Bool.false_eq_true, if_false, hargs, hty, hd]
+  have hh := hw.1.1.1
+  cases fd
+  simp_all
+
 end IsoVerif.Gql
